@@ -51,6 +51,12 @@ def run_calls(cfg, ids=None, role="single"):
     minipcn_stub.MAX_SAMPLE_CALLS = emcee_stub.MAX_SAMPLE_CALLS = None
     verifflow_mod.OBSERVER = tr.flow_event
     orng_stub.CREATED.clear()
+    # everything that is imported / initialised on first use is touched *before* the global generators are
+    # seeded (a first import between seeding and the construction of a kernel that copies numpy's global state
+    # would make the first run of a process differ from the later ones)
+    if c.get("out_ns"):
+        get_xp(c["out_ns"]).asarray([0.0])
+    from aspire import Aspire as _warm      # noqa: F401
     np.random.seed((c["kseed"] if c["kseed"] is not None else c["seed"]) % (2**31))
     gen = np.random.default_rng(c["seed"])
     urng = LoggingRNG(gen, tr)
